@@ -92,6 +92,10 @@ def cases(tier, seed):
                      "ncols": 1, "dtype": "float64"}
                 c["name"] = f"chunked keys vs contiguous:GroupBy.{f}/chunks={'+'.join(map(str, lengths))},G={G}/mask=slice({sl[0]},{sl[1]})"
                 out.append(c)
+        for f in ("sum", "first", "count_ikey"):
+            c = {"kind": "chunked_keys", "func": f, "lengths": lengths, "N": N, "G": G, "mask": {"kind": "fancy", "L": 2}, "ncols": 1 if f != "count_ikey" else 0, "dtype": "float64"}
+            c["name"] = f"chunked keys vs contiguous:GroupBy.{f}/chunks={'+'.join(map(str, lengths))},G={G}/mask=positions(L=2)"
+            out.append(c)
         c = {"kind": "chunked_keys", "func": "count_ikey", "lengths": lengths, "N": N, "G": G, "mask": {"kind": "bool_sym"}, "ncols": 0, "dtype": "float64"}
         c["name"] = f"chunked keys vs contiguous:GroupBy.count_ikey/chunks={'+'.join(map(str, lengths))},G={G}/mask=bool_sym"
         out.append(c)
@@ -184,11 +188,15 @@ def build_chunked(case, inp):
     d["values"] = [inp.values(f"v{c}_", N, case["dtype"], sum_safe=case["func"] in ("sum", "mean", "sum_squares")) for c in range(max(case["ncols"], 1))]
     if case["mask"]["kind"] == "bool_sym":
         d["mask"] = inp.bools("m", N)
+    elif case["mask"]["kind"] == "fancy":
+        d["mask"] = inp.ints("p", case["mask"]["L"], -N, N - 1)
     return d
 
 
 def _mask_obj(case, d):
     m = case["mask"]
+    if m["kind"] == "fancy":
+        return A(d["mask"], "int64").tag("input:mask")
     if m["kind"] == "bool_sym":
         return A(d["mask"], "bool").tag("input:mask")
     if m["kind"] == "slice":
@@ -279,7 +287,8 @@ def replay_chunked(case, conc):
     glob = [(-1 if x < 0 else p[x]) for l, p in zip(loc, ptr) for x in l]
     N = sum(lengths)
     m = case["mask"]
-    mask = real_np.array(conc["m"], dtype=bool) if m["kind"] == "bool_sym" else (slice(m["start"], m["stop"], m["step"]) if m["kind"] == "slice" else None)
+    mask = real_np.array(conc["m"], dtype=bool) if m["kind"] == "bool_sym" else (slice(m["start"], m["stop"], m["step"]) if m["kind"] == "slice" else (
+        real_np.array(conc["p"], dtype="int64") if m["kind"] == "fancy" else None))
     try:
         gb1 = real_gb(G, chunks=loc, pointers=ptr)
         gb2 = real_gb(G, codes=glob)
